@@ -408,6 +408,14 @@ func Run(r *core.Run) {
 					res, err := app.Apply(an, prev)
 					v := judge(typ, t.req, p.SignatureAlgorithms)
 					det := map[string]any{"request": string(t.req), "predicate": v}
+					// the same operation anchored before and after its window [1, 1000]: an operation outside its window still advances
+					// commitments, so every condition of the statement must hold for it just the same
+					for _, at := range []uint64{0, 1001} {
+						lateOrEarly := &operation.AnchoredOperation{Type: typ, UniqueSuffix: suffix, OperationRequest: t.req, TransactionTime: at, TransactionNumber: 2}
+						if r2, e2 := app.Apply(lateOrEarly, prev); e2 == nil && r2 != nil && !v.Auth {
+							return &core.Fail{Key: t.id, What: fmt.Sprintf("unauthorized operation anchored outside its window (time %d) changed the state (%s)", at, v.Why), Detail: det}
+						}
+					}
 					if t.id == fmt.Sprintf("%s/%s/valid", typ, kt) || strings.HasSuffix(t.id, "kid-allowed") || strings.HasSuffix(t.id, "member-order-only") {
 						// vacuity: the untampered operation must be authorized and accepted
 						if !v.Auth || err != nil || res == nil {
